@@ -210,7 +210,7 @@ func isRecvIdent(info *types.Info, fd *ast.FuncDecl, e ast.Expr) bool {
 	if fd.Recv == nil || len(fd.Recv.List) == 0 || len(fd.Recv.List[0].Names) == 0 {
 		return false
 	}
-	return objOfIdent(info, e) == info.Defs[fd.Recv.List[0].Names[0]]
+	return objOfIdent(info, e) == info.Defs[recvIdentOf(fd)]
 }
 
 // checkExtendedRealm: WithExtendedRealm(realm) returns <recv>.WithRealm(ConcatBytes(<recv>.Realm() | <recv>.realm, realm)).
@@ -242,7 +242,7 @@ func checkExtendedRealm(r *Reporter, p *Prog, pkg, typ string) {
 			return true
 		}
 		first := exprKey(cc.Args[0])
-		recvName := fd.Recv.List[0].Names[0].Name
+		recvName := recvIdentOf(fd).Name
 		if (first == recvName+".Realm()" || first == recvName+".realm") && len(params) == 1 && objOfIdent(info, cc.Args[1]) == params[0] {
 			ok = true
 		}
@@ -274,7 +274,7 @@ func checkRealmDiscipline(r *Reporter, p *Prog) {
 	}
 	for _, fd := range roots {
 		params := paramObjs(info, fd)
-		recvName := fd.Recv.List[0].Names[0].Name
+		recvName := recvIdentOf(fd).Name
 		ownRealm := recvName + ".realm"
 		if recvTypeName(fd) == "batchedMutations" {
 			ownRealm = recvName + ".kvStore.realm"
